@@ -17,7 +17,9 @@
   t = 2, 3: the scheduler plans C, then A.  C is removed from the hot buffer at t = 4 (usage 45).
   t = 4: usage 45 is above 40 % and 45 + 10 is below 60 %: the buffer loop starts
          `move_cold_to_hot` (process 27): B returns (cold free 100, B stored in hot).
-  t = 5: B is planned; A is removed at t = 6, B at t = 7; `is_finished()` holds.
+  t = 5: B is planned; A's task (3 units, started at 3) holds its machine until its recorded finish 6
+         (F13; before the repair it was given back at 5 and A was removed at t = 6, B at t = 7);
+         B and A are both removed at t = 7, B first; `is_finished()` holds.
 -/
 import TopsimProofs.Witness1
 
@@ -86,9 +88,10 @@ theorem c04S2_chk : witChk c04S2 [0, 1, 2]
 
 /-- at the end both move processes are in the process table (ended), B has come back and been
 removed from the hot buffer, both tiers are at full free capacity -/
+-- F13: order of removal `[1, 2, 0]` (before the repair `[1, 0, 2]`)
 theorem c04S2_tier :
     (witHasTag c04S2 "hot2cold" && witHasTag c04S2 "cold2hot" &&
-      decide (c04S2.buf.hot.finished = [1, 0, 2]) && decide (c04S2.buf.cold.stored = []) &&
+      decide (c04S2.buf.hot.finished = [1, 2, 0]) && decide (c04S2.buf.cold.stored = []) &&
       decide (c04S2.buf.hot.cur = 100) && decide (c04S2.buf.cold.cur = 100)) = true := by
   decide +kernel
 
